@@ -10,13 +10,16 @@
 package main
 
 import (
+	"crypto"
 	"encoding/json"
 	"fmt"
+	"io"
 	"math/rand"
 	"os"
 	"strconv"
 	"sync"
 
+	"github.com/zmap/zcrypto/tls"
 	"verifharness/lib/obs"
 	"verifharness/lib/tlsh"
 )
@@ -30,14 +33,71 @@ type Case27 struct {
 	CScen string `json:"cscen"`
 	CKey  string `json:"ckey"`
 	Auth  int    `json:"auth"`
+	CAs   string `json:"cas"` // the server's ClientCAs class ("" = "with")
 }
 
 type Rec struct {
 	Case27
-	Std     tlsh.StdVerdict `json:"std"`
-	Fired   string          `json:"fired"` // the wire corruption that hit its message ("" = none)
-	Obs     tlsh.Obs        `json:"obs"`
+	Std       tlsh.StdVerdict `json:"std"`
+	Fired     string          `json:"fired"`     // the wire corruption that hit its message ("" = none)
+	SigFired  string          `json:"sigfired"`  // the server's proof-of-possession signature was replaced by a structurally wrong one (scenario name)
+	CSigFired string          `json:"csigfired"` // same for the client's CertificateVerify
+	Obs       tlsh.Obs        `json:"obs"`
 }
+
+// badSigner is a key-substituting peer: it holds the genuine key object (so every length prefix and
+// both transcripts stay consistent - the messages are built by zcrypto itself) but hands out a
+// structurally wrong signature: empty, the genuine one truncated by one byte, or extended by one.
+type badSigner struct {
+	inner crypto.Signer
+	mode  string
+	mu    sync.Mutex
+	used  bool
+}
+
+func (b *badSigner) Public() crypto.PublicKey { return b.inner.Public() }
+func (b *badSigner) Sign(rnd io.Reader, digest []byte, opts crypto.SignerOpts) ([]byte, error) {
+	sig, err := b.inner.Sign(rnd, digest, opts)
+	if err != nil {
+		return nil, err
+	}
+	b.mu.Lock()
+	b.used = true
+	b.mu.Unlock()
+	switch b.mode {
+	case "Empty":
+		return []byte{}, nil
+	case "Short":
+		return sig[:len(sig)-1], nil
+	case "Long":
+		return append(append([]byte(nil), sig...), 0), nil
+	}
+	obs.Fatal("unknown signature corruption %q", b.mode)
+	return nil, nil
+}
+func (b *badSigner) fired() bool {
+	b.mu.Lock()
+	defer b.mu.Unlock()
+	return b.used
+}
+
+// badSignerDecrypter: RSA keys also serve the RSA key exchange
+type badSignerDecrypter struct{ *badSigner }
+
+func (b badSignerDecrypter) Decrypt(rnd io.Reader, msg []byte, opts crypto.DecrypterOpts) ([]byte, error) {
+	return b.inner.(crypto.Decrypter).Decrypt(rnd, msg, opts)
+}
+
+func wrapKey(key crypto.PrivateKey, mode string) (crypto.PrivateKey, *badSigner) {
+	bs := &badSigner{inner: key.(crypto.Signer), mode: mode}
+	if _, ok := key.(crypto.Decrypter); ok {
+		return badSignerDecrypter{bs}, bs
+	}
+	return bs, bs
+}
+
+var sigModes = map[string]string{"SigEmpty": "Empty", "SigShort": "Short", "SigLong": "Long",
+	"ClientSigEmpty": "Empty", "ClientSigShort": "Short", "ClientSigLong": "Long"}
 
 var wireScen = map[string]bool{"CorruptSKXSig": true, "CorruptSKXParams": true, "CorruptServerFinished": true,
 	"CorruptClientFinished": true, "CorruptClientCV": true}
@@ -122,7 +182,7 @@ func runCase(cs Case27) Rec {
 	if cs.Suite != 0 {
 		ep.Suites = []int{cs.Suite}
 	}
-	abs := tlsh.Case{ID: cs.ID, C: ep.NonNil(), S: ep.NonNil(), Scen: cs.Scen, CScen: cs.CScen, CKey: cs.CKey}
+	abs := tlsh.Case{ID: cs.ID, C: ep.NonNil(), S: ep.NonNil(), Scen: cs.Scen, CScen: cs.CScen, CKey: cs.CKey, CAs: cs.CAs}
 	abs.C.Force = true // DHE suites are only offered with ForceSuites; harmless for the others
 	if cs.Suite == 0 {
 		abs.C.Force = false
@@ -133,9 +193,27 @@ func runCase(cs Case27) Rec {
 		obs.Fatal("case %d: %v", cs.ID, err)
 	}
 	rec.Std = b.PKI.Std()
+	var sbad, cbad *badSigner
+	if m, ok := sigModes[cs.Scen]; ok {
+		var k crypto.PrivateKey
+		k, sbad = wrapKey(b.PKI.ServerKey, m)
+		b.Server.Certificates[0].PrivateKey = k
+	}
+	if m, ok := sigModes[cs.CScen]; ok && b.PKI.ClientKey != nil {
+		var k crypto.PrivateKey
+		k, cbad = wrapKey(b.PKI.ClientKey, m)
+		cert := tls.Certificate{Certificate: b.PKI.ClientChain, PrivateKey: k}
+		b.Client.GetClientCertificate = func(*tls.CertificateRequestInfo) (*tls.Certificate, error) { return &cert, nil }
+	}
 	f, applied := corrupt(cs.Scen, cs.CScen, cs.Vers)
 	r := tlsh.Run(b.Client, b.Server, tlsh.RunOpt{Filter: f})
 	rec.Obs = tlsh.Observe(r)
+	if sbad != nil && sbad.fired() {
+		rec.SigFired = cs.Scen
+	}
+	if cbad != nil && cbad.fired() {
+		rec.CSigFired = cs.CScen
+	}
 	if *applied {
 		rec.Fired = cs.Scen
 		if cs.CScen == "CorruptClientCV" {
@@ -147,8 +225,9 @@ func runCase(cs Case27) Rec {
 
 var serverScens = []string{"Trusted", "UntrustedRoot", "Expired", "NotYetValid", "WrongName", "WrongKey", "BadLeafSig",
 	"NameIP4Listed", "NameIP4Unlisted", "NameIP6BracketListed", "NameIP6BracketUnlisted", "NameIP6ZoneListed", "NameDNSTrailingDot",
-	"CorruptSKXSig", "CorruptSKXParams", "CorruptServerFinished", "CorruptClientFinished"}
-var clientScens = []string{"NoClientCert", "ClientTrusted", "ClientUntrusted", "ClientExpired", "ClientWrongKey", "ClientServerEKU", "CorruptClientCV"}
+	"CorruptSKXSig", "CorruptSKXParams", "CorruptServerFinished", "CorruptClientFinished", "SigEmpty", "SigShort", "SigLong"}
+var clientScens = []string{"NoClientCert", "ClientTrusted", "ClientUntrusted", "ClientExpired", "ClientWrongKey", "ClientServerEKU", "CorruptClientCV",
+	"ClientSigEmpty", "ClientSigShort", "ClientSigLong"}
 
 // combos of (version, suite, server key) the random generator draws from
 var combos = [][3]interface{}{
@@ -168,6 +247,10 @@ func randomCase(r *rand.Rand, id int) Case27 {
 	if cs.Vers < 12 && cs.CKey == "E" {
 		cs.CKey = "P"
 	}
+	if _, ok := sigModes[cs.Scen]; ok && (cs.Suite == 51 || cs.Suite == 57 || cs.Suite == 158 || cs.Suite == 52394) {
+		cs.Scen = "Trusted" // zcrypto's DHE_RSA key agreement only works with a concrete RSA key object
+	}
+	cs.CAs = []string{"with", "with", "with", "nil", "empty", "without"}[r.Intn(6)]
 	return cs
 }
 
